@@ -977,7 +977,11 @@ func classify(c *Case) (bool, []string) {
 		add(tag)
 	}
 	if c.ExpectOut > 0 && len(c.Tags) > 0 && ob.eof && ob.out == int64(c.ExpectOut) {
-		add("halftone/decoded")
+		if strings.HasPrefix(c.Tags[0], "jbig2-text/") {
+			add("jbig2-text/decoded")
+		} else {
+			add("halftone/decoded")
+		}
 	}
 	msByOrigin[c.Origin] += ob.elapsed.Milliseconds() + ob.dElapsed.Milliseconds()
 	switch {
